@@ -67,6 +67,8 @@
 //   exactly, >= 1 merges island and frame; -0.2 keeps, <= -0.5 makes unit features vanish), all joins, both
 //   union settings; frames of bars are touching/overlapping members, so d<0 without union is judged only for
 //   the key-holed frames.  Oracle unchanged.
+// Pinching holes: sub-check offset.pinch (see pinch_groups()) offsets plates by exactly half a neck width / half
+//   a hole gap (and by the neighbouring distances), all joins, both union settings, scalings 1000 and 2^20.
 // Union option: members of one partition family (same region, different polygons) are offset with
 //   use_union=true and must agree at every sample farther than g from both results' boundaries, and in
 //   area within (perimeter * 2g).
@@ -138,7 +140,7 @@ static std::vector<Shape> parse_spec(const std::string& spec) {
         Shape s;
         s.rev = islower((unsigned char)one[0]) != 0;
         s.kind = (char)toupper((unsigned char)one[0]);
-        s.cls = s.kind == 'K' ? "ring" : "poly";
+        s.cls = s.kind == 'K' ? "ring" : s.kind == 'N' ? "plate" : "poly";
         size_t q = 2;
         while (q < one.size()) {
             size_t f = one.find(';', q);
@@ -191,11 +193,16 @@ static Group build_group(const std::vector<Shape>& shapes) {
         } else {
             // key-holed ring produced by a prior boolean Not on the real code (scaling 1000)
             Polygon* o = make_polygon({{s.pts[0].x, s.pts[0].y}, {s.pts[1].x, s.pts[0].y}, {s.pts[1].x, s.pts[1].y}, {s.pts[0].x, s.pts[1].y}});
-            Polygon* in = make_polygon({{s.pts[2].x, s.pts[2].y}, {s.pts[3].x, s.pts[2].y}, {s.pts[3].x, s.pts[3].y}, {s.pts[2].x, s.pts[3].y}});
+            // kind 'K': one rectangular cut-out; kind 'N' (plate): any number of rectangular cut-outs, which may
+            // overlap (L- and Z-shaped openings) or be separate (several slits)
+            Array<Polygon*> cuts = {};
+            for (size_t c = 2; c + 1 < s.pts.size(); c += 2)
+                cuts.append(make_polygon({{s.pts[c].x, s.pts[c].y}, {s.pts[c + 1].x, s.pts[c].y}, {s.pts[c + 1].x, s.pts[c + 1].y}, {s.pts[c].x, s.pts[c + 1].y}}));
             Array<Polygon*> res = {};
-            ErrorCode ec = boolean(*o, *in, Operation::Not, 1000, res);
+            ErrorCode ec = boolean(*o, cuts, Operation::Not, 1000, res);
             o->clear(); free_allocation(o);
-            in->clear(); free_allocation(in);
+            for (uint64_t c = 0; c < cuts.count; c++) { cuts[c]->clear(); free_allocation(cuts[c]); }
+            cuts.clear();
             if (ec != ErrorCode::NoError || res.count != 1) {
                 R->internal_error("ring construction by boolean Not failed for " + spec_of(s));
                 G.ok = false;
@@ -220,7 +227,9 @@ static Group build_group(const std::vector<Shape>& shapes) {
                     for (int64_t j = s.pts[0].y - 1; j <= s.pts[1].y; j++) {
                         eg::P q = {(3 * i + 1) * 7, (7 * j + 1) * 3};
                         bool in_o = i >= s.pts[0].x && i < s.pts[1].x && j >= s.pts[0].y && j < s.pts[1].y;
-                        bool in_i = i >= s.pts[2].x && i < s.pts[3].x && j >= s.pts[2].y && j < s.pts[3].y;
+                        bool in_i = false;
+                        for (size_t c = 2; c + 1 < s.pts.size(); c += 2)
+                            if (i >= s.pts[c].x && i < s.pts[c + 1].x && j >= s.pts[c].y && j < s.pts[c + 1].y) in_i = true;
                         if ((eg::winding(l21, q) != 0) != (in_o && !in_i)) { R->internal_error("key-holed ring does not cover outer minus inner: " + spec_of(s)); G.ok = false; }
                     }
             }
@@ -234,7 +243,7 @@ static Group build_group(const std::vector<Shape>& shapes) {
             G.lat.push_back(lp);
             G.gp.push_back(res[0]);
             res.clear();
-            G.hole2.push_back({s.pts[2].x + s.pts[3].x, s.pts[2].y + s.pts[3].y});
+            if (s.kind == 'K') G.hole2.push_back({s.pts[2].x + s.pts[3].x, s.pts[2].y + s.pts[3].y});
         }
     }
     for (auto& p : G.lat) G.orient += eg::area2(p) > 0 ? '+' : '-';
@@ -749,6 +758,40 @@ static std::vector<std::vector<Shape>> nested_groups() {
     }
     return out;
 }
+// pinching holes: plates (slit polygons from boolean Not) whose opening has a neck of width w, so that growing
+// by exactly w/2 with miter joins closes the neck to a single point / to a segment on exact grid coordinates
+// (the result's hole contour then visits a point twice); and plates with two separate holes that touch at a
+// corner / along an edge when shrinking by exactly half their gap.  The distance set brackets the exact values
+// (w=1: 0.2 < 0.5 < 1; w=2: 0.5 < 1 < 1.7).  Cut-outs are wide enough (half-width > 3|d|) that a wrongly filled
+// opening contains samples beyond every join's reach.
+static std::vector<std::vector<Shape>> pinch_groups() {
+    auto plate = [](int W, int H, std::initializer_list<std::array<int, 4>> cuts) {
+        Shape s;
+        s.kind = 'N'; s.cls = "plate";
+        s.pts = {{0, 0}, {W, H}};
+        for (auto& c : cuts) { s.pts.push_back({c[0], c[1]}); s.pts.push_back({c[2], c[3]}); }
+        return s;
+    };
+    std::vector<Shape> S = {
+        plate(12, 12, {{2, 2, 6, 7}, {5, 6, 10, 10}}),                 // neck 1x1: closes to a point at d=+0.5
+        plate(12, 12, {{2, 2, 6, 8}, {5, 6, 10, 10}}),                 // neck 1 wide, 2 long: closes to a segment
+        plate(12, 12, {{5, 2, 10, 6}, {2, 5, 6, 10}}),                 // the other diagonal
+        plate(12, 12, {{2, 2, 6, 7}, {2, 7, 4, 10}, {5, 6, 10, 10}}),  // L-shaped cut-out joined to a rectangle
+        plate(12, 12, {{2, 2, 6, 6}, {5, 5, 10, 7}, {9, 6, 10, 10}}),  // two necks (Z of three rectangles)
+        plate(22, 22, {{3, 3, 11, 12}, {9, 10, 19, 19}}),              // neck 2x2: closes to a point at d=+1
+        plate(9, 9, {{2, 2, 4, 4}, {5, 5, 7, 7}}),                     // two holes, diagonal gap 1: touch at a corner at d=-0.5
+        plate(9, 6, {{2, 2, 4, 4}, {5, 2, 7, 4}}),                     // two holes side by side, gap 1: touch along an edge at d=-0.5
+        plate(10, 10, {{2, 2, 4, 4}, {6, 6, 8, 8}}),                   // diagonal gap 2: touch at a corner at d=-1
+        plate(10, 10, {{2, 2, 4, 5}, {2, 5, 3, 7}, {5, 6, 8, 8}}),     // L-shaped hole and a rectangle, diagonal gap 1
+        plate(11, 11, {{2, 2, 4, 4}, {5, 5, 6, 6}, {7, 7, 9, 9}}),     // three holes on a diagonal: two pinches in a row
+    };
+    std::vector<std::vector<Shape>> out;
+    for (size_t i = 0; i < S.size(); i++) {
+        out.push_back({S[i]});
+        if (i == 0 || i == 6) { Shape t = S[i]; t.rev = true; out.push_back({t}); }
+    }
+    return out;
+}
 // partition families: every member of a family covers the same region
 static std::vector<std::vector<std::vector<Shape>>> families() {
     std::vector<std::vector<std::vector<Shape>>> F;
@@ -969,6 +1012,10 @@ int main(int argc, char** argv) {
     {
         auto N = nested_groups();
         run_groups("offset.nested", fmt("%zu nested groups: closed frames (abutting bars / overlapping bars / key-holed ring) around 1 or 2 inner shapes (square, diamond, L, 2x2 square) in both windings, and frame-in-frame around a centre square", N.size()), N, 2, T ? std::vector<int>{0, 1} : std::vector<int>{0});
+    }
+    {
+        auto N = pinch_groups();
+        run_groups("offset.pinch", fmt("%zu plates with pinching openings (necks of width 1 and 2 between rectangular / L-shaped cut-outs; separate holes at diagonal or edge gap 1 and 2), built by boolean Not", N.size()), N, 2);
     }
     run_families(r1, T);
     run_groups("offset.single.L", T ? "all 1600 L shapes (every position), both orientations" : "144 L shapes (bounding box 2..4, every notch, 4 corners; one per translation class)", singles("L", T, T, T ? LAT : 4), r1);
